@@ -270,6 +270,24 @@ func planScreen(rng *rand.Rand, nops int, w, h int, mix string, rich bool, hasCa
 			add(sop{Op: "Show"})
 			add(sop{Op: "Fallback", R: o.R, B: rng.Intn(2) == 0, S: "?"})
 			add(sop{Op: "Show"})
+		case k < 45 && rng.Intn(40) == 0:
+			// a region reaching past the right and bottom edges: the part of it on the screen is locked, and unlocked, all the same
+			x, y := cw-1-rng.Intn(2), ch-1-rng.Intn(2)
+			if x < 0 {
+				x = 0
+			}
+			if y < 0 {
+				y = 0
+			}
+			rw, rh := 3+rng.Intn(3), 1+rng.Intn(4)
+			add(sop{Op: "SetContent", X: cw - 1, Y: y, R: 'k', St: tcx.RandStyle(rng, rich, true)})
+			add(sop{Op: "Show"})
+			add(sop{Op: "LockRegion", X: x, Y: y, W: rw, H: rh, B: true})
+			add(sop{Op: "SetContent", X: cw - 1, Y: y, R: 'L', St: tcx.RandStyle(rng, rich, true)})
+			add(sop{Op: "SetContent", X: x, Y: ch - 1, R: 'M', St: tcx.RandStyle(rng, rich, true)})
+			add(sop{Op: "Show"})
+			add(sop{Op: "LockRegion", X: x, Y: y, W: rw, H: rh, B: false})
+			add(sop{Op: "Show"})
 		case k < 45 && cw >= 5 && rng.Intn(40) == 0:
 			// bottom line: a wide rune, shown; another wide rune one column to its left (the first stays stored but
 			// hidden); then the corner cell changes - whoever owns column w-2 must be found by walking the line
@@ -853,6 +871,11 @@ func sweepPlans(full, legacy bool) [][]sop {
 				ops = append(ops, sop{Op: "SetContent", X: x, Y: y, R: r, St: st})
 			}
 			ops = append(ops, sop{Op: "Show"})
+			if j < len(forbidden) {
+				// the window grows and shrinks back: the cells are carried over into a new buffer and everything is
+				// repainted - runes that must be blanked still are
+				ops = append(ops, sop{Op: "WinSize", W: 33, H: 5, B: true}, sop{Op: "WinSize", W: 32, H: 4, B: true})
+			}
 		}
 		ops = append(ops, sop{Op: "Fini"})
 		plans = append(plans, ops)
